@@ -622,6 +622,85 @@ XATTR_LINES = [b"# file: ../x", b"# file: a/../../b", b"# file: ", b"# file:", b
                b"user.a=\"unterminated", b"user.a=un\"balanced", b"user.\xff=v", b"user.\x80\xfe\xc3\xa4=0x00", b"trusted.\xe2\x82\xac=\xff"]
 
 
+# ----- quoting case splits.  Every unquoting loop of the three parsers (split_line for pack files, decode_filename
+# for sort files, decode for xattr values / the "# file:" line) looks at one character and branches on: end of
+# string / quote / backslash followed by {backslash, quote, octal digit, other, end of string} / anything else.
+# QUOTE_TAILS are the ends of a quoted token that fall into each of these cases, with and without blanks behind
+# (lines are right-trimmed before they are parsed, so `"x\" ` reaches the parser as `"x\"`).
+QUOTE_TAILS = [b"\"", b"\"x", b"\"x\\", b"\"x\\\"", b"\"\\\"", b"\"x\\\\", b"\"x\\\\\"", b"\"x\\\\\\\"", b"\"x\"", b"\"x\" ", b"\"x\\\" ", b"\" ",
+               b"\"x\\\"y\\\"", b"\"\\\"\\\"\\\"", b"\"x\"y", b"\"\"", b"\"\"\"", b"\"x\\1\\\"", b"\"" + b"n" * 300 + b"\\\"", b"\"" + b"n" * 5000 + b"\\\""]
+
+PACK_QUOTE_LINES = [pre + t + post for t in QUOTE_TAILS
+                    for pre, post in ((b"dir ", b" 0755 0 0"), (b"file f 0644 0 0 ", b""), (b"dir ", b""), (b"slink s 0777 0 0 ", b""),
+                                      (b"glob / 0755 0 0 -name ", b" ."), (b"", b""))]
+SORT_QUOTE_LINES = [pre + t for t in QUOTE_TAILS for pre in (b"10 ", b"5 [glob] ", b"5 [\"glob\"] ", b"")]
+XATTR_QUOTE_LINES = [pre + t for t in QUOTE_TAILS for pre in (b"user.q=", b"# file: ")]
+
+
+def quote_files(base, lines, prefixes):
+    """whole files for the tool oracle: the valid file followed by one quoting line (those with the given prefixes)"""
+    return [base + l + b"\n" for l in lines if any(l.startswith(p) and p for p in prefixes)]
+
+
+def quote_enum(maxlen, alphabet=(b"\"", b"\\", b"a", b" ")):
+    """every string of at most maxlen symbols over the alphabet of the unquoting automaton"""
+    out = [b""]
+    layer = [b""]
+    for _ in range(maxlen):
+        layer = [x + c for x in layer for c in alphabet]
+        out += layer
+    return out
+
+
+def quote_mutants(line, limit=400):
+    """the line and its one-step edits at the case splits of the unquoting loops: at every quote, every backslash and
+    at the end of the line (and of every blank-separated token) a quote / backslash / escaped quote / escaped backslash
+    is inserted, removed or doubled, the line is cut there, and the QUOTE_TAILS are appended.  Used to search around a
+    line on which model and implementation disagree."""
+    line = bytes(line)
+    out = [line]
+    seen = {line}
+
+    def add(x):
+        if x not in seen and len(x) < (1 << 20):
+            seen.add(x)
+            out.append(x)
+    spots = sorted({i for i, c in enumerate(line) if c in b"\"\\"} | {i + 1 for i, c in enumerate(line) if c in b"\"\\"} |
+                   {i for i, c in enumerate(line) if c in b" \t"} | {len(line)})
+    ins = [b"\"", b"\\", b"\\\"", b"\\\\", b"x\\\"", b"\"\""]
+    for t in QUOTE_TAILS[:-2]:
+        add(line + t)
+        add(line.rstrip(b"\"") + t)
+        add(line + b" " + t)
+    for sp in spots[:24] + spots[-8:]:
+        for x in ins:
+            add(line[:sp] + x + line[sp:])
+        add(line[:sp])                       # cut here
+        if sp < len(line):
+            add(line[:sp] + line[sp + 1:])   # drop the character
+            add(line[:sp] + b"\\" + line[sp:sp + 1])   # escape it and cut behind it
+            add(line[:sp] + line[sp:sp + 1] * 2 + line[sp + 1:])
+    # the quoted token grown, so that an over-read has to cross the end of a larger block as well
+    for t in (b"\"" + b"g" * 40 + b"\\\"", b"\"" + b"g" * 3000 + b"\\\""):
+        add(line.rstrip(b"\"") + t)
+    # the parsers strip what precedes the token in place (memmove towards the start of the line buffer): the bytes left
+    # behind the new NUL are the old tail of the line, so what a walk past the NUL meets depends on how far the token
+    # was moved.  Every edit that ends in a quote or a backslash is repeated with the token 1..9 bytes further right.
+    base = [x for x in out if x[-1:] in (b"\"", b"\\")][:40]
+    first = []
+    for x in base:
+        sp = x.find(b" ")
+        for k in (1, 2, 5, 0):
+            if k:
+                y = (x[:sp] + b" " * k + x[sp:]) if sp > 0 else (b"x" * k + b" " + x)
+            else:
+                y = (b"11" + x) if x[:1].isdigit() else (b"k.k=" + x)
+            if y not in seen:
+                seen.add(y)
+                first.append(y)
+    return ([line] + first[:limit // 2] + out[1:])[:limit]
+
+
 def text_mutants(rnd, base, lines, n):
     """one-line edits of a valid file + each special line on its own / appended"""
     out = [base]
